@@ -169,12 +169,18 @@ def unsupported_versions(part):
                     if r.version not in W.VERSIONS:
                         part.violation("unsupported-version-echoed", "refusal is stamped %s" % (r.version,), ctx)
                     # engine seam: the engine's own header handling (the decoder never lets these through)
-                    msg = W.build_request(version, [reqs[op]()])
-                    r2 = w.engine_direct(msg, ('alice', None))
-                    part.count('requests')
-                    if r2.items[0].ok() or w.raw_key() != before:
-                        part.violation("unsupported-version-served-by-engine|%d.%d" % version,
-                                       "engine served %s under KMIP %s" % (op.name, version), ctx)
+                    # ... three times in a row on the same engine: a refusal must not make the next
+                    # request of the same version acceptable
+                    for attempt in (1, 2, 3):
+                        msg = W.build_request(version, [reqs[op]()])
+                        r2 = w.engine_direct(msg, ('alice', None))
+                        part.count('requests')
+                        if r2.items[0].ok() or w.raw_key() != before:
+                            part.violation("unsupported-version-served-by-engine|%d.%d" % version,
+                                           "engine served %s under KMIP %s (attempt %d in a row)" % (
+                                               op.name, version, attempt), ctx)
+                            break
+
                 finally:
                     w.close()
 
